@@ -51,7 +51,7 @@ def run(ctx):
     except subprocess.TimeoutExpired:
         dia = {"all_defaults": False, "rounds": "process hung"}
     if not dia.get("all_defaults"):
-        real_fail.append({"mode": "diamond", "violation": "a query on a dependency cycle did not evaluate to its cycle default, or its evaluation hangs (Root spawns Left and Right, both read Shared, Shared -> Back -> Root; and 12 three-cycles Head -> Mid -> Tail -> Head whose head also reads three slow off-cycle siblings from spawned tasks; expected -1 for every member)", "scenario": dia})
+        real_fail.append({"mode": "diamond", "violation": "a query on a dependency cycle did not evaluate to its cycle default, or its evaluation hangs (Root spawns Left and Right, both read Shared, Shared -> Back -> Root; and 12 three-cycles Head -> Mid -> Tail -> Head whose head also reads three slow off-cycle siblings from spawned tasks; expected -1 for every member; and a Reader of a member of the cycle CycA <-> CycB requested concurrently while CycA is marked but still computing: expected CycA's default + 1000, not the Reader's own default)", "scenario": dia})
     # recorded hangs: firewalls / projections on a cycle
     for key, w in (("c06_firewall_cycle_tfc_repair_hang", "c06_firewall_cycle.txt"), ("c06_projection_cycle_backward_projection_hang", "c06_projection_cycle.txt")):
         status, txt = ec.replay_witness(os.path.join(vlib.VERIF, "witness", w))
